@@ -8,6 +8,7 @@ import (
 	"strings"
 
 	ledger "github.com/formancehq/ledger/internal"
+	"github.com/formancehq/ledger/internal/api/bulking"
 
 	"github.com/formancehq/ledger/verifharness/core"
 	"github.com/formancehq/ledger/verifharness/sim"
@@ -16,7 +17,7 @@ import (
 func init() {
 	core.Register(&core.Check{
 		ID: "C29", Level: "exploration",
-		Rule: "random charts of accounts (depth <= 4, fixed and variable segments with optional patterns, .self, .metadata defaults; world sometimes missing) x strict/audit enforcement x creates by postings with a known / missing / unknown schema version and accounts drawn from chart-valid and chart-invalid addresses, plus schemas that define transaction templates (create with / without template); oracle: an independent chart matcher written from the documented semantics (fixed segment wins, else variable segment whose pattern matches; leaf or .self = account) and the reference ledger for effects and default metadata. Addresses whose classification depends on an undocumented choice (a fixed segment that dead-ends while the variable sibling would accept) are counted as ambiguous and excluded. Distinct = (mode, version kind, validity of each posting account, outcome); non-trivial = the request names a schema version and at least one account is chart-invalid or gets default metadata",
+		Rule: "random charts of accounts (depth <= 4, fixed and variable segments with optional patterns, .self, .metadata defaults; world sometimes missing) x strict/audit enforcement x creates by postings with a known / missing / unknown schema version and accounts drawn from chart-valid and chart-invalid addresses, plus schemas that define transaction templates (create with / without template); oracle: an independent chart matcher written from the documented semantics (fixed segment wins, else variable segment whose pattern matches; leaf or .self = account) and the reference ledger for effects and default metadata. Every create is also submitted, on a twin ledger of the same mode and schema, through the other write paths of the real stack: Controller.BeginTX + write + Commit (what an atomic bulk does), the real bulking.Bulker atomic and non-atomic, and POST /v2/{ledger}/_bulk[?atomic=true] on the real router; the same oracle applies on every path (strict: refused and nothing committed; audit: accepted). Addresses whose classification depends on an undocumented choice (a fixed segment that dead-ends while the variable sibling would accept) are counted as ambiguous and excluded. Distinct = (mode, version kind, validity of each posting account, outcome); non-trivial = the request names a schema version and at least one account is chart-invalid or gets default metadata",
 		Assumptions: []string{seqAssume, "chart semantics taken from the OpenAPI description and chart_test.go"},
 		Run:  runC29,
 	})
@@ -128,9 +129,111 @@ func (n *c29Node) sampleAddress(rng *rand.Rand, prefix []string, out *[]string) 
 	}
 }
 
+// c29Paths: the write paths every create goes through besides the direct controller call.
+var c29Paths = []string{"begintx-commit", "bulker-atomic", "bulker-sequential", "http-bulk-atomic", "http-bulk-sequential"}
+
+func c29ElementJSON(op sim.Op) string {
+	if op.Kind == "postings" {
+		var ps []string
+		for _, p := range op.Postings {
+			ps = append(ps, fmt.Sprintf(`{"source":%q,"destination":%q,"asset":%q,"amount":%s}`, p.Source, p.Destination, p.Asset, p.Amount))
+		}
+		return fmt.Sprintf(`{"action":"CREATE_TRANSACTION","data":{"postings":[%s],"force":%v}}`, strings.Join(ps, ","), op.Force)
+	}
+	vars, _ := json.Marshal(op.Vars)
+	return fmt.Sprintf(`{"action":"CREATE_TRANSACTION","data":{"script":{"template":%q,"vars":%s}}}`, op.Template, vars)
+}
+
+// c29Submit sends op through one write path of the twin env; returns accepted, error class, error text.
+func c29Submit(pe *sim.Env, path string, op sim.Op) (bool, string, string) {
+	elJSON := c29ElementJSON(op)
+	atomic := strings.HasSuffix(path, "-atomic")
+	switch path {
+	case "begintx-commit":
+		txc, _, err := pe.Ctrl("l1").BeginTX(pe.Ctx, nil)
+		if err != nil {
+			return false, "begintx:" + sim.Classify(err), err.Error()
+		}
+		out := sim.ApplyTo(pe.Ctx, txc, op)
+		if out.Class == sim.CPanic {
+			pe.C.AbortAll()
+			return false, out.Class, out.Err.Error()
+		}
+		if !out.OK() {
+			_ = txc.Rollback(pe.Ctx)
+			return false, out.Class, out.Err.Error()
+		}
+		if err := txc.Commit(pe.Ctx); err != nil {
+			return false, "commit:" + sim.Classify(err), err.Error()
+		}
+		return true, sim.COK, ""
+	case "bulker-atomic", "bulker-sequential":
+		var el bulking.BulkElement
+		if err := json.Unmarshal([]byte(elJSON), &el); err != nil {
+			return false, "element-not-parsed", err.Error()
+		}
+		in := make(bulking.Bulk, 1)
+		res := make(chan bulking.BulkElementResult, 1)
+		in <- el
+		close(in)
+		rerr := bulking.NewBulker(pe.Ctrl("l1"), bulking.WithParallelism(1)).Run(pe.Ctx, in, res,
+			bulking.BulkingOptions{Atomic: atomic, SchemaVersion: op.SchemaVersion})
+		if rerr != nil {
+			return false, "bulker-run:" + sim.Classify(rerr), rerr.Error()
+		}
+		out, ok := <-res
+		if !ok {
+			return false, "no-result", "the bulker returned no result for the element"
+		}
+		if out.Error != nil {
+			return false, sim.Classify(out.Error), out.Error.Error()
+		}
+		return true, sim.COK, ""
+	}
+	url := "/v2/l1/_bulk"
+	var qs []string
+	if atomic {
+		qs = append(qs, "atomic=true")
+	}
+	if op.SchemaVersion != "" {
+		qs = append(qs, "schemaVersion="+op.SchemaVersion)
+	}
+	if len(qs) > 0 {
+		url += "?" + strings.Join(qs, "&")
+	}
+	resp := pe.Do("POST", url, []byte("["+elJSON+"]"), nil)
+	var body struct {
+		Data []struct {
+			ErrorCode string `json:"errorCode"`
+			ErrorDesc string `json:"errorDescription"`
+		} `json:"data"`
+	}
+	if err := json.Unmarshal(resp.Body, &body); err != nil || len(body.Data) != 1 {
+		if resp.Status >= 500 && len(resp.Body) == 0 {
+			pe.C.AbortAll()
+		}
+		return false, fmt.Sprintf("http-%d", resp.Status), string(resp.Body)
+	}
+	if body.Data[0].ErrorCode == "" && resp.Status == 200 {
+		return true, sim.COK, ""
+	}
+	class := "http:" + body.Data[0].ErrorCode
+	switch body.Data[0].ErrorCode {
+	case "VALIDATION", "SCHEMA_NOT_SPECIFIED", "NOT_FOUND":
+		// the codes the bulk handler maps schema refusals to (mapBulkElementError)
+		if strings.Contains(body.Data[0].ErrorDesc, "schema") {
+			class = sim.CSchema
+		}
+	}
+	return false, class, body.Data[0].ErrorDesc
+}
+
 func runC29(r *core.Run) {
 	n := r.N(500, 12000)
 	r.Floor("strict_requests_with_invalid_account", int64(n/20))
+	for _, p := range c29Paths {
+		r.Floor("strict_violating_writes:"+p, int64(n/4))
+	}
 	r.ForEach("chart", n, 0, func(c *core.Case) {
 		rng := c.Rng
 		strict := c.Index%2 == 0
@@ -188,6 +291,15 @@ func runC29(r *core.Run) {
 			c.Violation("C29/valid-schema-refused:"+out.Class, map[string]any{"schema": string(sb), "error": out.Err.Error()})
 			return
 		}
+		// twin ledger for the other write paths (no mirror: only refusal / acceptance and effects are judged there)
+		pe := sim.NewEnv(sim.Options{Strict: strict})
+		defer pe.Close()
+		_ = pe.CreateLedger("l1", "_default", nil)
+		if tw := pe.Apply("l1", sim.Op{Kind: "insert_schema", Version: "v1", Schema: sd}); !tw.OK() {
+			c.Violation("C29/valid-schema-refused:"+tw.Class, map[string]any{"schema": string(sb), "error": tw.Err.Error(), "where": "twin ledger"})
+			return
+		}
+		twinDigest := "" // digest of the twin ledger when known
 		invalidPool := []string{"nope", "users", "users:zzz:zzz:zzz:zzz", "bank:1:2", "orders:!", "ghost:1", "users:0xx", "world:sub"}
 		for step := 0; step < 8; step++ {
 			pick := func() string {
@@ -213,6 +325,75 @@ func runC29(r *core.Run) {
 			if !wellFormed.MatchString(src) || !wellFormed.MatchString(dst) {
 				continue
 			}
+			usesTemplate := op.Template != ""
+			kind := "conforming"
+			switch {
+			case version == "":
+				kind = "no-schema-version"
+			case version == "v404":
+				kind = "unknown-schema-version"
+			case withTemplates && !usesTemplate:
+				kind = "no-template-although-templates-exist"
+			case !okS || !okD:
+				kind = "account-outside-chart"
+			}
+			// judge applies the property's oracle to one submission of op; path "" = direct controller call
+			judge := func(path string, ok bool, class, errText string, changed bool) {
+				suffix, name := "", "direct"
+				if path != "" {
+					suffix, name = ":"+path, path
+				}
+				outcome := "refused"
+				if ok {
+					outcome = "accepted"
+				}
+				r.Count(fmt.Sprintf("writes:%s:strict=%v:%s:%s", name, strict, kind, outcome), 1)
+				if strict && kind != "conforming" {
+					r.Count("strict_violating_writes:"+name, 1)
+				}
+				detail := map[string]any{"strict": strict, "schema": string(sb), "op": op, "write_path": name, "outcome": class, "source_in_chart": okS, "destination_in_chart": okD}
+				if errText != "" {
+					detail["error"] = errText
+				}
+				if path != "" {
+					detail["bulk_element"] = c29ElementJSON(op)
+				}
+				if !ok && changed {
+					c.Violation("C29/rejected-write-had-an-effect"+suffix, detail)
+				}
+				switch {
+				case !strict:
+					// audit mode accepts violations (template lookups aside)
+					// (a template can only be resolved through an existing schema version: those refusals are not enforcement)
+					if !ok && class == sim.CSchema && version != "v404" && (!usesTemplate || version == "v1") && !(withTemplates != usesTemplate) {
+						c.Violation("C29/audit-mode-rejected-a-write:"+version+suffix, detail)
+					}
+				case version == "":
+					if ok {
+						c.Violation("C29/strict-mode-accepted-a-write-without-schema-version"+suffix, detail)
+					}
+				case version == "v404":
+					if ok {
+						c.Violation("C29/strict-mode-accepted-an-unknown-schema-version"+suffix, detail)
+					}
+				default:
+					if path == "" {
+						r.Count("strict_requests_checked", 1)
+						if !okS || !okD {
+							r.Count("strict_requests_with_invalid_account", 1)
+						}
+					}
+					if withTemplates && !usesTemplate {
+						if ok {
+							c.Violation("C29/strict-mode-accepted-a-write-without-template-although-templates-exist"+suffix, detail)
+						}
+					} else if (!okS || !okD) && ok {
+						c.Violation("C29/strict-mode-accepted-an-account-outside-the-chart"+suffix, detail)
+					} else if okS && okD && !ok && class == sim.CSchema {
+						c.Violation("C29/strict-mode-rejected-a-conforming-write"+suffix, detail)
+					}
+				}
+			}
 			before := e.C.Snapshot("l1").Digest()
 			res := m.Step(op)
 			after := e.C.Snapshot("l1").Digest()
@@ -224,43 +405,28 @@ func runC29(r *core.Run) {
 				r.Count("ambiguous_excluded", 1)
 				continue
 			}
-			detail := map[string]any{"strict": strict, "schema": string(sb), "op": op, "outcome": res.Class, "source_in_chart": okS, "destination_in_chart": okD}
+			errText := ""
 			if res.Err != nil {
-				detail["error"] = res.Err.Error()
+				errText = res.Err.Error()
 			}
-			if !res.OK() && before != after {
-				c.Violation("C29/rejected-write-had-an-effect", detail)
-			}
-			usesTemplate := op.Template != ""
-			switch {
-			case !strict:
-				// audit mode accepts violations (template lookups aside)
-				// (a template can only be resolved through an existing schema version: those refusals are not enforcement)
-				if !res.OK() && res.Class == sim.CSchema && version != "v404" && (!usesTemplate || version == "v1") && !(withTemplates != usesTemplate) {
-					c.Violation("C29/audit-mode-rejected-a-write:"+version, detail)
+			judge("", res.OK(), res.Class, errText, before != after)
+			for _, path := range c29Paths {
+				if twinDigest == "" {
+					twinDigest = pe.C.Snapshot("l1").Digest()
 				}
-			case version == "":
-				if res.OK() {
-					c.Violation("C29/strict-mode-accepted-a-write-without-schema-version", detail)
+				pb := twinDigest
+				ok, class, et := c29Submit(pe, path, op)
+				pa := ""
+				if !ok {
+					pa = pe.C.Snapshot("l1").Digest() // a refused write must leave the twin ledger as it was
 				}
-			case version == "v404":
-				if res.OK() {
-					c.Violation("C29/strict-mode-accepted-an-unknown-schema-version", detail)
+				twinDigest = pa
+				r.Seen("outcomes_"+path, fmt.Sprintf("strict=%v:%s", strict, class))
+				if pend, locks := pe.C.PendingLeftovers(); pend != 0 || locks != 0 {
+					c.Violation("C29/open-transaction-or-lock-after-return:"+path, map[string]any{"op": op, "pending_rows": pend, "locks": locks, "outcome": class})
+					pe.C.AbortAll()
 				}
-			default:
-				r.Count("strict_requests_checked", 1)
-				if !okS || !okD {
-					r.Count("strict_requests_with_invalid_account", 1)
-				}
-				if withTemplates && !usesTemplate {
-					if res.OK() {
-						c.Violation("C29/strict-mode-accepted-a-write-without-template-although-templates-exist", detail)
-					}
-				} else if (!okS || !okD) && res.OK() {
-					c.Violation("C29/strict-mode-accepted-an-account-outside-the-chart", detail)
-				} else if okS && okD && !res.OK() && res.Class == sim.CSchema {
-					c.Violation("C29/strict-mode-rejected-a-conforming-write", detail)
-				}
+				judge(path, ok, class, et, !ok && pb != pa)
 			}
 		}
 		for _, f := range m.Findings {
